@@ -8,6 +8,15 @@ rm -rf $w; mkdir -p $w/repo $w/out
 git -C /repo archive HEAD | tar -x -C $w/repo
 (cd $w/repo && git init -q . && git apply /verif/seeded/$id/patch.diff) || { echo "$id: patch does not apply" | tee /verif/seeded/$id/result.txt; rm -rf $w; exit 9; }
 out=$(cd /verif && PYVC_OUT=$w/out timeout ${SEED_TIMEOUT:-1500} ./check $prop --repo $w/repo 2>&1); code=$?
-{ echo "== $prop exit=$code"; echo "$out" | grep -E "VIOLATION|KNOWN|CHECKER-ERROR|bounded-only" | cut -c1-260; } > /verif/seeded/$id/result.txt
+{ echo "== $prop exit=$code"; echo "$out" | grep -E "VIOLATION|KNOWN|CHECKER-ERROR|bounded-only|undecided" | cut -c1-260;
+  python3 -c "
+import json,sys,collections
+try:
+    e=json.load(open('$w/out/evidence/$prop.json'))
+    c=collections.Counter(f['status'] for f in e['coverage']['failed_obligations'])
+    print('STATUSES of failed obligations:', dict(c))
+except Exception as ex:
+    print('STATUSES: n/a', ex)
+"; } > /verif/seeded/$id/result.txt
 echo "$id: $(grep -c VIOLATION /verif/seeded/$id/result.txt) violation lines; $(grep '^==' /verif/seeded/$id/result.txt)"
 rm -rf $w
